@@ -143,5 +143,18 @@ Definition machine_entry (x : sx) : sx :=
       SL [sx_stop k; SZ n; sx_st s]
     | _, _ => sx_bad
     end
+  | SL [SZ 4; m; sc; SZ k; SZ fuel] =>
+    (* run k ticks, raise the interrupt flag, continue *)
+    match module_sx m, script_sx sc with
+    | Some m', Some sc' =>
+      let '(s1, k1, n1) := run m' (Z.to_nat k) (init_state m' sc') 0 in
+      match k1 with
+      | StFuel =>
+        let '(s, k2, n) := run m' (Z.to_nat fuel) (set_irq s1 true) n1 in
+        SL [sx_stop k2; SZ n; sx_st s]
+      | _ => SL [sx_stop k1; SZ n1; sx_st s1]
+      end
+    | _, _ => sx_bad
+    end
   | _ => sx_bad
   end.
